@@ -102,6 +102,7 @@ def ingestion_case(cid, typ, xs, arity, rng, splits=None):
             c.op('A', 7, rest)
         regs.append((7, 'collect_ref+add'))
     marks = [(c.op('O', r), how) for r, how in regs]
+    c.meta['marks'] = marks
     return c, marks
 
 
@@ -285,3 +286,10 @@ def run(tier, seed):
         need['cases_%s' % t] = 50
     return common.finish(PROP, tier, seed, total, RULE, t0, ASSUME, min_events=need,
                          extra={'builds': [v for v, _ in variants]})
+
+
+def rejudge(case, recs, res, variant, v):
+    if 'marks' not in case.meta:
+        print('  note: concatenate! findings compare several cases; re-run ./check C20 to re-evaluate')
+        return
+    judge_ingestion(case, [tuple(m) for m in case.meta['marks']], recs, case.type, res, variant)
